@@ -272,7 +272,67 @@ pub fn c06(cx: &Ctx) -> (Vec<Violation>, Cover) {
         discrepancies(cx).iter().filter(|d| d.revoke_related).map(|d| to_violation("C06", a, d)).collect();
     // table sizes at quiescent points: revoked entries are really gone, neighbours kept
     v.extend(table_check(cx, "C06", true));
+    // ... and immediately: the tables sampled right before / after every revocation command agree with the ledger
+    for c in a.cmds.iter() {
+        let (Some(pre), Some(post)) = (c.pre, c.post) else { continue };
+        for (pos, n) in c.notes.iter() {
+            let Note::Tables { phase, tables, entity_entries } = n else { continue };
+            let at = if *phase == 0 { pre } else { post };
+            let (lo, hi) = ledger_counts(a, at, *pos);
+            cov.count("revocations_with_immediate_table_check", (*phase == 1) as u64);
+            let names = ["insertion", "mutation", "removal", "resource", "broadcast", "any_entity_event", "despawn", "entity"];
+            for i in 0..8 {
+                let got = if i < 7 { tables[i] } else { *entity_entries };
+                if got < lo[i] || got > hi[i] {
+                    v.push(Violation::new(
+                        "C06",
+                        format!("C06/table-at-revoke/{}/{}/{}", names[i], if *phase == 0 { "before" } else { "after" }, if got > hi[i] { "leftover" } else { "lost" }),
+                        format!("{:?}: {} table holds {} entries {} the revocation, ledger says {}..{}", c.act, names[i], got, if *phase == 0 { "before" } else { "after" }, lo[i], hi[i]),
+                        *pos,
+                    ));
+                    break;
+                }
+            }
+        }
+    }
     (v, cov)
+}
+
+/// Ledger counts per table at ledger position `at`; liveness of entities is taken from the facts sampled at `at`.
+/// Despawn registrations whose entity is gone but which have not been polled yet are still in the table: they are
+/// allowed (hi) but not required (lo).
+pub fn ledger_counts(a: &Analysis, at: usize, _sample_pos: usize) -> ([usize; 8], [usize; 8]) {
+    let mut lo = [0usize; 8];
+    let mut hi = [0usize; 8];
+    for r in a.regs.iter().filter(|r| r.live_at(at)) {
+        let mut uncertain = !r.certain;
+        let idx = match r.trig {
+            RTrig::Ins(_) => 0,
+            RTrig::Mut(_) => 1,
+            RTrig::Rem(_) => 2,
+            RTrig::Res(_) => 3,
+            RTrig::Bc(_) => 4,
+            RTrig::AnyEe(_) => 5,
+            RTrig::Desp(e) => {
+                if a.ent_alive_at(at, e) != Some(true) {
+                    // fired, waiting for the next poll
+                    uncertain = true;
+                }
+                6
+            }
+            RTrig::Ee(e, _) | RTrig::EIns(e, _) | RTrig::EMut(e, _) | RTrig::ERem(e, _) => {
+                if a.ent_alive_at(at, e) != Some(true) {
+                    continue;
+                }
+                7
+            }
+        };
+        hi[idx] += 1;
+        if !uncertain {
+            lo[idx] += 1;
+        }
+    }
+    (lo, hi)
 }
 
 /// Compares the snapshot's table sizes with the ledger at every quiescent point.
